@@ -137,7 +137,7 @@ fn rust_eval_vals<T: Calc>(x: T, y: T, l: f64, prog: &Value) -> Result<T, String
         let arg = &step[1];
         let mut ev = Ev::from_json(&json!({"op": op, "form": if op.ends_with("_f") { "op" } else { "oo" }, "a": 1, "b": 2, "c": 3, "d": 1})).unwrap();
         if let Some(n) = arg.as_i64() { ev.n = n as i32; }
-        match arg.as_str() { Some("l") => ev.s = l, Some("2.0") => ev.s = 2.0, _ => {} }
+        match arg.as_str() { Some("l") => ev.s = l, Some(lit) => { if let Ok(v) = lit.parse::<f64>() { ev.s = v; } } _ => {} }
         // registers: 1 = accumulator, 2 = y, 3 = x (mul_add(y, x))
         let regs = vec![acc.clone(), y.clone(), x.clone()];
         match T::apply(&regs, &ev)? {
